@@ -1081,15 +1081,22 @@ func (l *Ledger) GetBaseDB() kvdb.Database {
 }
 
 func (l *Ledger) removeBlocks(fromBlockid []byte, toBlockid []byte, batch kvdb.Batch) error {
+	_, err := l.removeBlocksAbove(fromBlockid, toBlockid, batch)
+	return err
+}
+
+// removeBlocksAbove removes the blocks of the branch ending in fromBlockid that are higher than toBlockid,
+// and returns the highest block of that branch that is kept (nil if the branch is an orphan)
+func (l *Ledger) removeBlocksAbove(fromBlockid []byte, toBlockid []byte, batch kvdb.Batch) (*pb.InternalBlock, error) {
 	fromBlock, findErr := l.fetchBlock(fromBlockid)
 	if findErr != nil {
 		l.xlog.Warn("failed to find block", "findErr", findErr)
-		return findErr
+		return nil, findErr
 	}
 	toBlock, findErr := l.fetchBlock(toBlockid)
 	if findErr != nil {
 		l.xlog.Warn("failed to find block", "findErr", findErr)
-		return findErr
+		return nil, findErr
 	}
 	for fromBlock.Height > toBlock.Height {
 		l.xlog.Info("remove block", "blockid", utils.F(fromBlock.Blockid), "height", fromBlock.Height)
@@ -1104,10 +1111,10 @@ func (l *Ledger) removeBlocks(fromBlockid []byte, toBlockid []byte, batch kvdb.B
 		fromBlock, findErr = l.fetchBlock(fromBlock.PreHash)
 		if findErr != nil {
 			l.xlog.Warn("failed to find prev block", "findErr", findErr)
-			return nil //ignore orphan block
+			return nil, nil //ignore orphan block
 		}
 	}
-	return nil
+	return fromBlock, nil
 }
 
 // Truncate truncate ledger and set tipblock to utxovmLastID
@@ -1139,14 +1146,17 @@ func (l *Ledger) Truncate(utxovmLastID []byte) error {
 	for _, branchTip := range branchTips {
 		deletedBlockid := []byte(branchTip)
 		// 裁剪到目标高度
-		err = l.removeBlocks(deletedBlockid, block.Blockid, batchWrite)
+		remainTip, err := l.removeBlocksAbove(deletedBlockid, block.Blockid, batchWrite)
 		if err != nil {
 			l.xlog.Warn("failed to remove garbage blocks", "from", utils.F(l.meta.TipBlockid),
 				"to", utils.F(block.Blockid))
 			return err
 		}
-		// 更新分支高度信息
-		err = l.updateBranchInfo(block.Blockid, deletedBlockid, block.Height, batchWrite)
+		if remainTip == nil {
+			remainTip = block
+		}
+		// 更新分支高度信息: 该分支上保留下来的最高区块(目标区块或者旁支上与目标同高的区块)成为新的分支末端
+		err = l.updateBranchInfo(remainTip.Blockid, deletedBlockid, remainTip.Height, batchWrite)
 		if err != nil {
 			l.xlog.Warn("truncate failed when calling updateBranchInfo", "err", err)
 			return err
